@@ -847,8 +847,15 @@ fn join_chunks(chunks: Vec<Chunk>, options: &FormattingOptions) -> String {
             indent = Some(chunk.indent);
         }
 
-        for str in chunk.str.split_inclusive('\n') {
+        for (piece_idx, str) in chunk.str.split_inclusive('\n').enumerate() {
             let mut ignore = false;
+            // The lines of a block comment after its first one are placed like the first one; the blanks they start
+            // with are dropped first, otherwise they would be shifted further to the right on every run.
+            let str = if piece_idx > 0 && matches!(chunk.ty, Some(ChunkType::Comment)) {
+                str.trim_start_matches(|c| c == ' ' || c == '\t')
+            } else {
+                str
+            };
 
             match chunk.ty {
                 Some(ChunkType::Label) => {
@@ -966,7 +973,8 @@ fn join_chunks(chunks: Vec<Chunk>, options: &FormattingOptions) -> String {
                     } else {
                         had_standalone_comment = false;
                     }
-                    had_label_line = line_has_label && !line_has_code;
+                    // (a line of comments that follows a label line still belongs to the label)
+                    had_label_line = (line_has_label || had_label_line) && !line_has_code;
                     prev_newlines = 0;
                     should_add = true;
                 }
